@@ -323,16 +323,27 @@ def trusted_base_lines(res):
 # Executables
 # --------------------------------------------------------------------------
 
-def build_model():
-    """Extracts the Coq model to OCaml and compiles the driver (cached)."""
-    odir = os.path.join(BUILD, "ocaml")
+def build_model(engine):
+    """Extracts the Coq model of one engine (coq/extract/Extract_<engine>.v) to
+    OCaml and compiles it with ocaml/conv.ml and ocaml/drv_<engine>.ml (cached).
+    Each engine has its own extraction and driver binary so that engines do not
+    depend on each other's definitions."""
+    odir = os.path.join(BUILD, "ocaml", engine)
     os.makedirs(odir, exist_ok=True)
-    defs = [p for p in coq_sources() if re.search(r"(Defs|Err|Prelude|Rounding|Generated[A-Za-z]*)\.v$", p)]
-    srcs = defs + files_under(os.path.join(COQ, "extract"), (".v",)) + files_under(os.path.join(VERIF, "ocaml"), (".ml",))
-    key = sha_files(srcs)
+    ext = os.path.join(COQ, "extract", "Extract_%s.v" % engine)
+    drv = os.path.join(VERIF, "ocaml", "drv_%s.ml" % engine)
+    conv = os.path.join(VERIF, "ocaml", "conv.ml")
+    # the .v files the extraction file imports (From Pops Require Import A B C.)
+    txt = strip_coq_comments(open(ext).read())
+    mods = []
+    for m in re.finditer(r"From\s+Pops\s+Require\s+Import\s+([^.]+)\.", txt):
+        mods += m.group(1).split()
+    defs = [os.path.join(COQ, "theories", m + ".v") for m in mods]
+    closure = _coq_dep_closure(defs)
+    key = sha_files(closure + [ext, drv, conv])
     exe = os.path.join(odir, "popsdriver")
     stamp = os.path.join(odir, "stamp")
-    with Lock("ocaml"):
+    with Lock("ocaml_" + engine):
         if os.path.exists(exe) and os.path.exists(stamp) and open(stamp).read() == key:
             return exe, None
         targets = ["theories/" + os.path.basename(p)[:-2] + ".vo" for p in defs]
@@ -340,30 +351,43 @@ def build_model():
         if rc != 0:
             return None, "model definitions do not compile:\n" + out[-3000:]
         for f in os.listdir(odir):
-            if f != "stamp":
-                try:
-                    os.remove(os.path.join(odir, f))
-                except OSError:
-                    pass
+            try:
+                os.remove(os.path.join(odir, f))
+            except OSError:
+                pass
         rc, out = run(
             ["coqc", "-Q", os.path.join(COQ, "theories"), "Pops", "-w", "-deprecated,-extraction",
-             "-o", os.path.join(odir, "Extract.vo"), os.path.join(COQ, "extract", "Extract.v")],
+             "-o", os.path.join(odir, "Extract_%s.vo" % engine), ext],
             cwd=odir, timeout=600)
         if rc != 0:
             return None, "extraction failed:\n" + out[-3000:]
-        mls = sorted(files_under(os.path.join(VERIF, "ocaml"), (".ml",)))
-        for p in mls:
+        for p in (conv, drv):
             with open(os.path.join(odir, os.path.basename(p)), "w") as f:
                 f.write(open(p).read())
-        order = ["conv.ml"] + sorted(os.path.basename(p) for p in mls if os.path.basename(p).startswith("drv_")) + ["driver.ml"]
         rc, out = run(
             ["ocamlfind", "ocamlopt", "-w", "-a", "-O2", "-package", "str", "-linkpkg",
-             "popsmodel.mli", "popsmodel.ml"] + order + ["-o", "popsdriver"],
+             "popsmodel.mli", "popsmodel.ml", "conv.ml", os.path.basename(drv), "-o", "popsdriver"],
             cwd=odir, timeout=900)
         if rc != 0:
             return None, "driver build failed:\n" + out[-3000:]
         open(stamp, "w").write(key)
         return exe, None
+
+
+def _coq_dep_closure(files):
+    """Transitive closure over `From Pops Require Import` of the given .v files."""
+    seen = []
+    todo = list(files)
+    while todo:
+        p = todo.pop()
+        if p in seen or not os.path.exists(p):
+            continue
+        seen.append(p)
+        txt = strip_coq_comments(open(p).read())
+        for m in re.finditer(r"From\s+Pops\s+Require\s+(?:Import|Export)\s+([^.]+)\.", txt):
+            for mod in m.group(1).split():
+                todo.append(os.path.join(COQ, "theories", mod + ".v"))
+    return seen
 
 
 def build_harness(name, sanitize=False, extra_flags=()):
